@@ -15,6 +15,9 @@ Conventions
   tests that reason once (the condition is spelled out next to the site) — the differential harness
   checks the outcome class (ok+bytes / panic) against the real function on every run.
 * int64 arithmetic is `Nat` modulo 2^64 (two's complement: same low 64 bits for `+`, `byte(x>>8k)`).
+* A frame the parser refuses (`parseFrame = none`: shorter than 6 bytes, or a property header that does not fit) never
+  reaches `ProcessLockData`: `ProcessParseLockData` returns an error and the connection is closed; inside a PIPELINE the
+  loop stops. `processFrame` then leaves the cell unchanged.
 * EXECUTE sub-commands are outside the core subset: the cell is unchanged by them (that is what the Go
   code does); only their control flow inside PIPELINE (no reset before them) and the one checked access on
   their path (`GetValueOffset` in `DecodeLockCommand`) are modelled.
@@ -25,19 +28,19 @@ abbrev Bytes := List UInt8
 
 /-- Named panic sites (Go source position in the comment). -/
 inductive Site
-  | frameHdr       -- command.go:397  data[4], data[5] on a frame shorter than 6 bytes
+  | frameHdr       -- (repaired, 570db92) command.go data[4], data[5] on a frame shorter than 6 bytes — now refused
   | cmdValueOffset -- command.go:631  Data[6], Data[7]: property flag on a frame shorter than 8 bytes
-  | incrNilCell    -- lock.go:1007    currentLockData.GetValueOffset() with currentLockData == nil
+  | incrNilCell    -- (repaired, 076286b) currentLockData.GetValueOffset() with currentLockData == nil — now 6
   | incrCellFlag   -- lock.go:1015    currentLockData.data[5]
   | incrWrite      -- lock.go:1003/4  data[4..5], data[valueOffset+i]
   | appendHdr      -- lock.go:1026    lockCommandData.Data[4]
   | appendBounds   -- lock.go:1030–34 make / data[i] / data[len(cur):] / Data[off:]  (value size < 0 or cell < 6 bytes)
   | shiftBounds    -- lock.go:1047–53 data[0..5] / data[valueOffset:] / cur[valueOffset+n:]  (valueOffset+n > len(cur))
   | pushBounds     -- lock.go:1111–27 Data[5] / Data[6:off] / data[index..] / Data[off:]  (value offset beyond the frame)
-  | popSlice       -- lock.go:1143    cur.data[i+4:i+4+valueLen] beyond cap
+  | popSlice       -- (repaired, f897b3e) cur.data[i+4:i+4+valueLen] beyond the cell — the loop now stops
   | popHead        -- lock.go:1155    cur.data[4:i] beyond cap
   | pipelineBuf    -- lock.go:1080    Data[GetValueOffset():]
-  | pipelineLen    -- lock.go:1082    buf[index+1..3]
+  | pipelineLen    -- (repaired, 639fbf7) buf[index+1..3] — the loop now needs 4 length bytes
   | fuel           -- model artefact: recursion budget exhausted (proved unreachable from `processFrame`)
   deriving DecidableEq, Repr, Inhabited
 
@@ -121,11 +124,19 @@ structure Cmd where
   flag : UInt8       -- DataFlag     = data[5]
   deriving DecidableEq, Repr
 
-/-- `NewLockCommandDataFromOriginBytes` -/
-def fromOriginBytes (data extra : Bytes) : M Cmd := do
-  let b4 ← idx .frameHdr data 4
-  let b5 ← idx .frameHdr data 5
-  pure ⟨data, extra, b4.toNat / 64, b4.toNat % 64, b5⟩
+/-- `NewLockCommandDataFromOriginBytes`: `none` = the constructor returns nil (frame refused):
+    fewer than 6 bytes, or the property flag is set and the header does not fit into the frame. -/
+def parseFrame (data extra : Bytes) : Option Cmd :=
+  match data[4]?, data[5]? with
+  | some b4, some b5 =>
+    if hasFlag b5 fPROP then
+      match data[6]?, data[7]? with
+      | some a, some b =>
+        if a.toNat + 256 * b.toNat + 8 > data.length then none
+        else some ⟨data, extra, b4.toNat / 64, b4.toNat % 64, b5⟩
+      | _, _ => none
+    else some ⟨data, extra, b4.toNat / 64, b4.toNat % 64, b5⟩
+  | _, _ => none
 
 /-- `LockCommandData.GetValueOffset` -/
 def cmdOff (c : Cmd) : M Nat :=
@@ -218,15 +229,18 @@ def opIncr (cx : Ctx) (cur : Option Cell) (c : Cmd) : M (Option Cell) := do
     let b5 ← idx .incrWrite c.data 5
     pure (some ⟨c.data.take 4 ++ [0, b5 ||| fNUMBER] ++ (c.data.drop 6).take (off - 6) ++ le64 v, c.extra, INCR, cx.fromAof⟩)
   else
-    match cur with
-    | none => panic .incrNilCell
-    | some x =>
-      let o := cellOff x.data
-      if o ≤ 6 then pure (some ⟨[10, 0, 0, 0, 0, 1] ++ le64 v, [], INCR, cx.fromAof⟩)
-      else do
+    -- `currentLockData.GetValueOffset()` answers 6 for a nil receiver
+    let o := match cur with
+      | none => 6
+      | some x => cellOff x.data
+    if o ≤ 6 then pure (some ⟨[10, 0, 0, 0, 0, 1] ++ le64 v, [], INCR, cx.fromAof⟩)
+    else
+      match cur with
+      | none => panic .incrNilCell
+      | some x => do
         let b5 ← idx .incrCellFlag x.data 5
-        -- make(o+8): length prefix stays 0; copy(data[6:], cur[6:]) then the number over [o, o+8)
-        pure (some ⟨[0, 0, 0, 0, 0, b5 ||| fNUMBER] ++ padTake (o - 6) (x.data.drop 6) ++ le64 v, [], INCR, cx.fromAof⟩)
+        -- make(o+8), length prefix o+4; copy(data[6:], cur[6:]) then the number over [o, o+8)
+        pure (some ⟨le32 (o + 4) ++ [0, b5 ||| fNUMBER] ++ padTake (o - 6) (x.data.drop 6) ++ le64 v, [], INCR, cx.fromAof⟩)
 
 def opAppend (cx : Ctx) (cur : Option Cell) (c : Cmd) : M (Option Cell) :=
   let fresh : M (Option Cell) :=
@@ -255,12 +269,18 @@ def opShift (cx : Ctx) (cur : Option Cell) (c : Cmd) : M (Option Cell) := do
   | some x =>
     if !(x.hasData && decide (0 < n)) then pure cur else
     let dl := x.data.length
-    let n' := if n > dl then dl else n
     let o := cellOff x.data
-    -- panics iff valueOffset + n' > len(cur)  (the clamp is against the whole frame, not the value)
-    if o + n' > dl then panic .shiftBounds else do
+    if o ≤ dl then do
+      -- the count is clamped to the value length
+      let n' := if n > dl - o then dl - o else n
       let b5 ← idx .shiftBounds x.data 5
       pure (some ⟨le32 (dl - n' - 4) ++ [0, b5] ++ (x.data.drop 6).take (o - 6) ++ x.data.drop (o + n'), [], SHIFT, cx.fromAof⟩)
+    else do
+      -- value offset beyond the cell (no such cell can be stored any more): the clamp goes negative, the new cell is
+      -- the header re-read up to the offset — `cur.data[6:valueOffset]` is checked against the capacity
+      let b5 ← idx .shiftBounds x.data 5
+      if o > dl + x.extra.length then panic .shiftBounds else
+      pure (some ⟨le32 (o - 4) ++ [0, b5] ++ ((x.data ++ x.extra).drop 6).take (o - 6), [], SHIFT, cx.fromAof⟩)
 
 def opPush (cx : Ctx) (cur : Option Cell) (c : Cmd) : M (Option Cell) :=
   let fresh : M (Option Cell) := do
@@ -282,18 +302,16 @@ def opPush (cx : Ctx) (cur : Option Cell) (c : Cmd) : M (Option Cell) :=
       pure (some ⟨le32 (x.data.length + vs) ++ [0, (b5 &&& 0xf8) ||| fARRAY] ++ x.data.drop 6 ++ le32 vs ++ c.data.drop off,
                   [], PUSH, cx.fromAof⟩)
 
-/-- The element loop of POP (also `GetArrayValue`): `rem` = `data[i:]`, `extra` = bytes up to cap.
-    Zero-length elements are skipped; the loop stops when `i+4 < len` fails. -/
-def parseElems (extra : Bytes) : Nat → Bytes → M (List Bytes)
-  | 0, _ => pure []
+/-- The element loop of POP (also `GetArrayValue`): `rem` = `data[i:]`.
+    Zero-length elements are skipped; the loop stops when `i+4 < len` fails or an element runs past the cell. -/
+def parseElems : Nat → Bytes → List Bytes
+  | 0, _ => []
   | fuel + 1, rem =>
-    if rem.length ≤ 4 then pure [] else
+    if rem.length ≤ 4 then [] else
     let vl := readLE (rem.take 4)
-    if vl = 0 then parseElems extra fuel (rem.drop 4)
-    else if 4 + vl > rem.length + extra.length then panic .popSlice
-    else do
-      let rest ← parseElems extra fuel (rem.drop (4 + vl))
-      pure (((rem ++ extra).drop 4).take vl :: rest)
+    if vl = 0 then parseElems fuel (rem.drop 4)
+    else if 4 + vl > rem.length then []
+    else (rem.drop 4).take vl :: parseElems fuel (rem.drop (4 + vl))
 
 def encElems (xs : List Bytes) : Bytes := xs.flatMap (fun x => le32 x.length ++ x)
 
@@ -305,7 +323,7 @@ def opPop (cx : Ctx) (cur : Option Cell) (c : Cmd) : M (Option Cell) := do
   | some x =>
     if !(x.hasData && decide (0 < n) && x.isArray) then pure cur else do
       let o := cellOff x.data
-      let values ← parseElems x.extra x.data.length (x.data.drop o)
+      let values := parseElems x.data.length (x.data.drop o)
       let rest := values.drop n
       let body := encElems rest
       -- copy(data[4:], cur.data[4:o]): checked against cap
@@ -337,17 +355,19 @@ def pipeLoop (rec : Option Cell → Cmd → M (Option Cell)) (pre : Option Cell)
     Nat → Bytes → Option Cell → M (Option Cell)
   | 0, _, cur => pure cur
   | fuel + 1, rem, cur =>
-    if rem.length = 0 then pure cur
-    else if rem.length < 4 then panic .pipelineLen
+    -- `for index+4 <= len(buf)`
+    if rem.length < 4 then pure cur
     else
       let dataLen := readLE (rem.take 4)
       if 4 + dataLen > rem.length then pure cur
-      else do
+      else
         let rest := rem.drop (4 + dataLen)
-        let c ← fromOriginBytes (rem.take (4 + dataLen)) (rest ++ extra)
-        let cur1 := if c.ctype ≠ EXECUTE then pre else cur
-        let cur2 ← rec cur1 c
-        pipeLoop rec pre extra fuel rest cur2
+        match parseFrame (rem.take (4 + dataLen)) (rest ++ extra) with
+        | none => pure cur     -- refused sub-frame: the loop stops
+        | some c => do
+          let cur1 := if c.ctype ≠ EXECUTE then pre else cur
+          let cur2 ← rec cur1 c
+          pipeLoop rec pre extra fuel rest cur2
 
 def pipeFinish (pre cur : Option Cell) : Option Cell :=
   match cur with
@@ -371,10 +391,11 @@ def proc : Nat → Ctx → Option Cell → Cmd → M (Option Cell)
       pure (pipeFinish cur cur')
     else procOp cx cur c
 
-/-- Entry point as reached from the wire: `NewLockCommandDataFromOriginBytes(frame)` then `ProcessLockData`. -/
-def processFrame (cx : Ctx) (cur : Option Cell) (frame : Bytes) : M (Option Cell) := do
-  let c ← fromOriginBytes frame []
-  proc (frame.length + 1) cx cur c
+/-- Entry point as reached from the wire: `ProcessParseLockData` (refusal = error) then `ProcessLockData`. -/
+def processFrame (cx : Ctx) (cur : Option Cell) (frame : Bytes) : M (Option Cell) :=
+  match parseFrame frame [] with
+  | none => pure cur      -- refused: the connection gets an error, the cell is untouched
+  | some c => proc (frame.length + 1) cx cur c
 
 /-- The signature asked for in the design: `processLockData locked waited cmdType cell frame requireRecover`. -/
 def processLockData (locked : Nat) (waited : Bool) (cmdType : CmdType) (cell : Option Cell) (frame : Bytes)
@@ -415,10 +436,7 @@ inductive Op
   deriving Repr
 
 /-- strict element decoding used only by the spec of SET-array -/
-def specElems (payload : Bytes) : List Bytes :=
-  match parseElems [] payload.length payload with
-  | .ok xs => xs
-  | .error _ => []
+def specElems (payload : Bytes) : List Bytes := parseElems payload.length payload
 
 def specApply (v : Val) : Op → Val
   | .set false b => .bytes b
@@ -445,10 +463,7 @@ def absCell : Option Cell → Val
     if !c.hasData then .none
     else
       let payload := c.data.drop (cellOff c.data)
-      if c.isArray then
-        match parseElems c.extra c.data.length payload with
-        | .ok xs => .array xs
-        | .error _ => .array []
+      if c.isArray then .array (parseElems c.data.length payload)
       else .bytes payload
 
 /-- the property header of a cell (opaque to the spec): bytes [6, valueOffset) -/
